@@ -78,6 +78,107 @@ CHECKS = {
              'integer hardware outputs are interpreted identically, frequencies count the readouts.',
         note='n in {2,3}; normalisation judged in floating point with 1e-9.',
         design='5/C15', technique='TLA+ bit-order operators + recorded result views validated by TLC'),
+    'C01': dict(
+        text='Machine view (Conform_RT): state (circuit, text), actions Generate and Parse. TLC enumerates programs with the AstEnum '
+             'machine over headers with int / negative / float / exponent-repr / 10^16 literals, a let-sized register, strided '
+             'let-bounded slices, single-qubit and whole aliases, an import, a macro with a parameter-indexed qubit, nested '
+             'seq/par/loop/subcircuit with literal and let counts. Each program is built through the parser and through the '
+             'builder; generate -> parse -> generate is recorded and TLC validates that the SPEC lexer (JaqalLex) and grammar '
+             '(JaqalParse) accept the generated text, that the real parser accepts it, that the re-parsed circuit projects to the '
+             'identical AST, compares == and has the same meaning, and that the second text equals the first.',
+        note='Trusted: projection/renderers/TLC; float(repr(x)) == x is not modelled. Bounded by the AstEnum constants.',
+        design='5/C01', technique='TLA+ lexer+grammar+meaning specs; TLC-enumerated programs replayed through generator and parser; TLC trace validation'),
+    'C06': dict(
+        text='TLC builds every two-link alias chain (whole / index / slice with start, stop incl. -1 and beyond the size, step in '
+             '{-1,1,2}, omitted and let-valued bounds) over registers of size 3-4 that JaqalSem!RegEntry declares valid, and AstEnum '
+             'places gates on the last alias directly, through a macro parameter, with a let index and as a named qubit. Four '
+             'consumers are replayed and validated by TLC against RegEntry/ArgV: resolve_qubit() of every argument object, '
+             'fill_in_map (no alias left, same meaning), get_used_qubit_indices (circuit and statements), and the emulator (state '
+             'vector and per-gate qubit indices through hook H3).',
+        note='Empty aliases are unasserted; an ascending slice must stop at or before the end of its source (as the implementation '
+             'requires). Depth 2, sizes 3-4.',
+        design='5/C06', technique='TLA+ alias arithmetic (RegEntry/ArgV); TLC-enumerated chains replayed into four consumers; TLC trace validation'),
+    'C09': dict(
+        text='Static half: AstEnum programs with subcircuit blocks at top level, in loops, sequential blocks and macros (literal / '
+             'let counts, mixed with explicit prepare/measure) go through expand_subcircuits and TLC validates no_sub_left, '
+             'brackets (Meaning(out) = ExpandU(Meaning(in))), macro bodies, header, imports. Dynamic half: TLC computes the '
+             'explicit spelling of every program (ExecEnum!RefExpandSub, with the theorem ExplicitSameTree checked on the spec), '
+             'both spellings are executed with the same seed and TLC compares the recorded executions.',
+        note='Brackets are judged on the meaning normal form (Seq-in-Seq identification), see DESIGN 5/C09.',
+        design='5/C09', technique='TLA+ meaning + RefExpandSub; TLC-enumerated programs replayed into expand_subcircuits and the emulator; TLC validation'),
+    'C10': dict(
+        text='TLC enumerates every history of the JaqalLib machine (Chain=TRUE) over {expand_subcircuits, fill_in_let(ovr), '
+             'fill_in_map, expand_macros} up to length 3 (quick) / 4 and programs in which all four passes have work to do; every '
+             'history is replayed on a fresh parse under 4 override dictionaries; TLC (Conform_Lib) validates each call with the '
+             'pass clauses, idempotence of repeated calls, legality of every result (nesting, and re-parse of its generated text '
+             'to equal meaning), equality of meaning of all orders of one pass set (commute), and parser flags vs explicit passes.',
+        note='fill_in_map before fill_in_let is compared only without overrides (Applicable). One open known finding (nested '
+             'sequential block left by expand_subcircuits).',
+        design='5/C10', technique='TLA+ library-call history machine; TLC-enumerated histories replayed; TLC trace validation per call and per pass set'),
+    'C11': dict(
+        text='TLC enumerates every history of the JaqalLib machine with Chain=FALSE (9 operations: 5 transformations, used-qubit '
+             'analysis, text generation, emulation, output parsing; length <= 3 quick / 4) and checks the frame condition '
+             'InputUnchanged on the machine; every history is replayed on ONE circuit object; after every call the object is '
+             'snapshotted (projection incl. native gate table and macro bodies, repr, == against a reference parse) and the result '
+             'is compared with the same call on a fresh parse; TLC validates input_unchanged and same_as_fresh per step.',
+        note='A mutation must be visible through projection, repr or ==.',
+        design='5/C11', technique='TLA+ history machine with frame condition; TLC-enumerated histories replayed on a shared object; TLC trace validation'),
+    'C13': dict(
+        text='ExecEnum enumerates parallel blocks with gate / sequential-block branches over 3 qubits named directly, through an '
+             'alias and through a macro parameter, idle gates; TLC validates (i) rejection exactly when two branches overlap '
+             '(JaqalExec!Overlap), (ii) get_used_qubit_indices of the circuit and of every top-level statement = UsedOf (busy = '
+             'all, idle = none), (iii) order independence: every program is also run with the branches of all parallel blocks '
+             'reversed and both state vectors must equal the specification\'s.',
+        note='A bare statement containing a busy gate is unasserted (all qubits are not determined without the circuit).',
+        design='5/C13', technique='TLA+ used-qubit / overlap operators; TLC-enumerated programs replayed into the analysis and the emulator; TLC validation'),
+    'C14': dict(
+        text='AstEnum enumerates programs with references that may be invalid (indices -1 / size-1 / size as literal, let, '
+             'override, macro argument; slices outside the source, zero step, alias or index of a let, duplicates, undefined names, '
+             'unknown gates, wrong arity / kinds under the exact gate set) x 6 override dictionaries; each pair goes through '
+             'parse -> fill_in_let -> expand_macros -> run; TLC decides validity on the MODEL program (ValidAll) and validates: '
+             'invalid => JaqalError at some stage, literal violations already at parse, valid (under declared and overriding '
+             'values) => accepted, accepted => every applied gate acts on the resolved qubits.',
+        note='One-directional. Precedence between injected and imported gate sets is not covered yet.',
+        design='5/C14', technique='TLA+ static validity (ValidAll, LiteralInvalid); TLC-enumerated programs replayed through the pipeline; TLC validation'),
+    'C16': dict(
+        text='(a) every character string of LexEnum (<= 3-4 chars over 15 representative characters), every token string of '
+             'ParseEnum and ~1200 mutated example files go through parse_jaqal_string and run_jaqal_string under a CPU watchdog; '
+             'TLC classifies each text with the spec lexer/grammar and validates exception types, positions, termination. '
+             '(b) TLC enumerates every history of the JaqalProcess machine over a pool of 8 texts (valid, 3 syntax-error kinds, '
+             'semantic error, static error, missing and present pulse module; importlib.util pre-imported or not), each history '
+             'runs in a FRESH interpreter and TLC validates outcome classes and history independence.',
+        note='Semantic errors are only required to be JaqalErrors.',
+        design='5/C16', technique='TLA+ process-history machine + lexer/grammar specs; TLC-enumerated histories replayed in fresh interpreters; TLC validation'),
+    'C17': dict(
+        text='The behaviours of the AstEnum builder machine (= the Q-syntax frame stack) are rendered as Jaqal text, as '
+             'object-oriented CircuitBuilder calls and as Q-syntax context-manager calls; TLC validates equality of the three '
+             'circuits (projection and ==), the implicit prepare/measure wrapping (JaqalFront!QWrap) and, with some lets / the '
+             'register left anonymous while user names look like auto-generated ones (__c0, __r0), freshness of generated names '
+             'and equality up to that renaming.',
+        note='No macros / aliases (not expressible in Q-syntax); one register.',
+        design='5/C17', technique='TLA+ front-end model (QWrap, renaming); TLC-enumerated behaviours replayed through three front ends; TLC validation'),
+    'C18': dict(
+        text='TLC enumerates the GateCallEnum machine: every signature of <= 2 (quick) / 3 parameters over 5 kinds x every argument '
+             'list over 14 value classes incl. one too many / too few; a real GateDefinition is called positionally, by keyword '
+             'and with broken keyword sets; TLC validates acceptance against JaqalGateDef!CallOK, exception types and '
+             'positional/keyword agreement; for the exact gate family it validates derived idle gates and the matrices of '
+             'stretched gates against JaqalExec!Mat.',
+        note='Value classes are represented by one object each.',
+        design='5/C18', technique='TLA+ Fits/CallOK table; TLC-enumerated calls replayed into GateDefinition; TLC validation'),
+    'C19': dict(
+        text='AstEnum enumerates alternating sequential/parallel nestings to depth 4 (unequal branches, empty blocks, subcircuit '
+             'blocks, loops also inside parallel blocks); TLC validates flat normal form, equality of the unit-time schedule '
+             '(JaqalSem!Schedule as a bag of (gate instance, time step)), rejection of loops in parallel blocks, header and imports.',
+        note='A loop is an opaque one-slot item on both sides. One open known finding (subcircuit annotations are flattened away).',
+        design='5/C19', technique='TLA+ schedule semantics; TLC-enumerated nestings replayed into the normaliser; TLC validation'),
+    'C20': dict(
+        text='Every enumerated program is paired with itself and with each single-point mutant (gate name, argument, qubit index, '
+             'loop / subcircuit count, annotation, block kind, alias bound, register size, let value, dropped argument); both are '
+             'parsed, == is evaluated both ways plus reflexivity and text round trip; TLC computes for the pair whether '
+             'declarations and Meaning are identical and validates reflexive, symmetric, roundtrip, eq_implies_same, '
+             'diff_implies_neq.',
+        note='Mutants are produced on the AST and rendered.',
+        design='5/C20', technique='TLA+ meaning/declaration comparison; TLC-enumerated programs and mutants replayed into ==; TLC validation'),
 }
 
 NOT_YET = {}
